@@ -77,7 +77,7 @@ func genTBFCase(rng *rand.Rand, multi bool) tcase {
 		for i := 1; i < k; i++ {
 			c.Steps = append(c.Steps, tstep{GapUs: []int{0, 0, 0, 300, 3000}[rng.Intn(5)], Size: size()})
 		}
-		if refillUs := c.Burst * 8 * 1000 / (c.Rate / 1000); !multi && refillUs >= 10000 && rng.Intn(3) == 0 {
+		if refillUs := c.Burst * 8 * 1000 / (c.Rate / 1000); !multi && refillUs >= 10000 && refillUs <= 600000 && rng.Intn(2) == 0 {
 			// rate set during an idle gap with a backlog queued: drain the bucket and leave a backlog, stay idle for less
 			// than the time the bucket needs to fill up (so that the clamp at the burst cannot hide extra credit), call
 			// Set(TBFRate) once or twice inside the gap (same or another rate), then one small arrival triggers the drain
@@ -95,7 +95,7 @@ func genTBFCase(rng *rand.Rand, multi bool) tcase {
 				}
 				c.Steps = append(c.Steps, tstep{GapUs: g / nset, SetRate: sr, NoSend: true})
 			}
-			c.Steps = append(c.Steps, tstep{GapUs: 0, Size: 10}, tstep{GapUs: refillUs * 2, Size: 10})
+			c.Steps = append(c.Steps, tstep{GapUs: 0, Size: 10}, tstep{GapUs: min(refillUs*2, 300000), Size: 10})
 		}
 		if rng.Intn(3) == 0 {
 			// refill-granularity pattern: bucket filled >100ms ago, emptied just before the next refill instant, then hit again just after it
